@@ -23,6 +23,12 @@ CLAIMED["C14"] = {
     "note": "Default feature set (ArgWithDefault::from_arg is todo!() under all-nodes-with-ranges, as the property notes); signatures come from the real parser; bounded number of parameters per kind.",
     "technique": "TLA+ spec of the two parameter-list forms and their conversions model-checked by TLC (mirror vs declarative); all TLC-generated signatures replayed through parser + real conversions",
 }
+CLAIMED["C20"] = {
+    "text": "CPython's MarkupIterator and field-name splitter are written as TLA+ machines (FormatString.tla); TLC checks normal-form laws and enumerates every template <= 4/5 characters over a 12-class alphabet (braces, brackets, '!', ':', '.', digit, letter, '+', multi-byte letter, non-ASCII digit), bare and wrapped in a replacement field, and every field name <= 5/6; expected parts or rejection are replayed on FormatString::from_str and FieldName::parse with two concretisations per class string; random longer inputs run on the real code are validated by TLC (FormatStringTrace.tla). Every generated input is also checked against CPython's _string.formatter_parser / formatter_field_name_split (0 spec/reference disagreements required).",
+    "design_ref": "DESIGN.md section 6 C20",
+    "note": "Format specs with more than one level of nested braces are outside the stated scope (skipped and counted); index overflow (> isize::MAX digits) is not generated; eight narrow known findings (bracket/brace awareness of the field scanner, non-ASCII digits) are listed in KNOWN_FINDINGS.json.",
+    "technique": "TLA+ machine of the reference template parser model-checked by TLC; exhaustive TLC-generated templates replayed into Rust; TLC trace validation of recorded calls; CPython cross-validation of the spec",
+}
 NOT_YET = {}
 
 def main():
